@@ -327,6 +327,26 @@ func ruleContainerWrites(w *World, r *Report, e *Engine, rule string, include fu
 					if callee := x.Call.StaticCallee(); callee != nil && callee.Pkg != nil && callee.Pkg.Pkg.Path() == "reflect" && strings.HasPrefix(callee.Name(), "Set") && copyRecv {
 						r.bad("C02.noreflectset", fn, "reflect "+callee.Name(), x.Pos(), "reflection write")
 					}
+					// a container handed to a function outside the module that writes through that parameter
+					// (slices.Insert, slices.Reverse, sort.Slice, maps.Copy …)
+					if callee := x.Call.StaticCallee(); callee != nil && !strings.HasPrefix(fnPkgPath(callee), modPath) && len(callee.Blocks) > 0 {
+						for i, arg := range x.Call.Args {
+							if !lispContainer(arg.Type()) || i >= len(callee.Params) {
+								continue
+							}
+							if !writesParam(callee, i, map[*ssa.Function]bool{}, 0) {
+								continue
+							}
+							nWrites++
+							construct := "container passed to " + callee.Name() + " " + w.srcOrDescribe(aud, in, arg)
+							ok, why := f.fresh(arg, 0)
+							if ok {
+								r.ok(rule, fn, construct, instrPos(in), "the callee writes through this parameter; "+why)
+							} else {
+								r.bad(rule, fn, construct, instrPos(in), "the callee writes into the storage it is given, which may already be reachable from a lisp value: "+why)
+							}
+						}
+					}
 				}
 				if base == nil || !lispContainer(base.Type()) {
 					continue
@@ -559,4 +579,96 @@ func storageRoot(v ssa.Value) ssa.Value {
 		}
 	}
 	return nil
+}
+
+
+// writesParam: the function (or one it hands the parameter to) writes into the storage of its parameter number idx:
+// element store, map update, delete, copy destination, clear, or append (which writes into spare capacity).
+func writesParam(fn *ssa.Function, idx int, seen map[*ssa.Function]bool, depth int) bool {
+	if depth > 4 || idx >= len(fn.Params) {
+		return depth > 4
+	}
+	if seen[fn] {
+		return false
+	}
+	seen[fn] = true
+	p := ssa.Value(fn.Params[idx])
+	memo := map[ssa.Value]bool{}
+	var derives func(v ssa.Value, d int) bool
+	derives = func(v ssa.Value, d int) bool {
+		if v == p {
+			return true
+		}
+		if d > 10 {
+			return false
+		}
+		if r, ok := memo[v]; ok {
+			return r
+		}
+		memo[v] = false
+		res := false
+		switch x := v.(type) {
+		case *ssa.Slice:
+			res = derives(x.X, d+1)
+		case *ssa.ChangeType:
+			res = derives(x.X, d+1)
+		case *ssa.Convert:
+			res = derives(x.X, d+1)
+		case *ssa.MakeInterface:
+			res = derives(x.X, d+1)
+		case *ssa.Phi:
+			for _, op := range x.Edges {
+				if derives(op, d+1) {
+					res = true
+				}
+			}
+		case *ssa.Call:
+			if bi, ok := x.Call.Value.(*ssa.Builtin); ok && bi.Name() == "append" {
+				res = derives(x.Call.Args[0], d+1)
+			}
+		}
+		memo[v] = res
+		return res
+	}
+	for _, b := range fn.Blocks {
+		for _, in := range b.Instrs {
+			switch x := in.(type) {
+			case *ssa.MapUpdate:
+				if derives(x.Map, 0) {
+					return true
+				}
+			case *ssa.Store:
+				if ia, ok := x.Addr.(*ssa.IndexAddr); ok && derives(ia.X, 0) {
+					return true
+				}
+			case ssa.CallInstruction:
+				c := x.Common()
+				if bi, ok := c.Value.(*ssa.Builtin); ok {
+					switch bi.Name() {
+					case "append", "copy", "delete", "clear":
+						if len(c.Args) > 0 && derives(c.Args[0], 0) {
+							return true
+						}
+					}
+					continue
+				}
+				callee := c.StaticCallee()
+				for i, a := range c.Args {
+					if !derives(a, 0) {
+						continue
+					}
+					if callee == nil || len(callee.Blocks) == 0 {
+						if callee != nil && (callee.Name() == "len" || callee.Name() == "cap") {
+							continue
+						}
+						return true // unknown code is handed the storage
+					}
+					if writesParam(callee, i, seen, depth+1) {
+						return true
+					}
+				}
+			}
+		}
+	}
+	return false
 }
